@@ -98,10 +98,11 @@ const (
 	opSnapCombo
 	opWaitDelete
 	opWaitExpire
+	opSweepChase
 	nOps
 )
 
-var opNames = [...]string{"createTopic", "deleteTopic", "createSub", "deleteSub", "updateSub", "publish", "pull", "ack", "modack", "seekTime", "snapshot", "seekSnap", "advance", "job", "dlSweep", "expirySweep", "setDelay", "fault", "restart", "deleteSnap", "pullAck", "chase", "nack", "waitCancel", "snapCombo", "waitDelete", "waitExpire"}
+var opNames = [...]string{"createTopic", "deleteTopic", "createSub", "deleteSub", "updateSub", "publish", "pull", "ack", "modack", "seekTime", "snapshot", "seekSnap", "advance", "job", "dlSweep", "expirySweep", "setDelay", "fault", "restart", "deleteSnap", "pullAck", "chase", "nack", "waitCancel", "snapCombo", "waitDelete", "waitExpire", "sweepChase"}
 
 func baseWeights() []int {
 	w := make([]int, nOps)
@@ -175,6 +176,7 @@ func (r *Run) configure() {
 			w[opSeekTime], w[opSeekSnap], w[opSnapshot], w[opSnapCombo] = 0, 0, 0, 0
 		}
 		w[opNack] = 8
+		w[opSweepChase] = 4
 		w[opDLSweep] = 6
 		w[opAdvance] *= 2
 		w[opPull] *= 2
@@ -495,6 +497,8 @@ func (r *Run) step() *Violation {
 		return r.doWaitDelete(t.Intn(r.nSubs))
 	case opWaitExpire:
 		return r.doWaitExpire(t.Intn(r.nSubs))
+	case opSweepChase:
+		return r.doSweepChase()
 	case opFault:
 		if r.Variant == "order" && t.Bool(50) {
 			// a storage fault inside a publish (the predecessor lookup is one of its statements)
@@ -1314,11 +1318,39 @@ func (r *Run) doDLSweep() *Violation {
 	t := r.T
 	limit := []int{1, 3, 100, 100}[t.Intn(4)]
 	a := actions.NewDeadLetterDeliveries(actions.DeadLetterDeliveriesParams{MaxDeliveries: limit})
+	ctx, cancel := context.WithCancel(context.Background())
+	defer cancel()
+	faulted := false
+	due := r.M.SweepDue(time.Now())
+	if r.Variant == "dl" && r.faultsOn && r.pendingFault == "" && (due > 0 || t.Bool(20)) {
+		// a storage error on one statement of the sweep's transaction (it reads, inserts the
+		// forwarded copies and retires the source in several statements): the sweep either
+		// fails and changes nothing, or succeeds completely
+		faulted = true
+		k := 1 + t.Intn(14)
+		if due > 0 {
+			k = 3 + t.Intn(8) // among the statements that forward and retire the first deliveries
+		}
+		r.Sim.Arm(FaultStmtErr, k, cancel)
+		r.stat("armed_" + FaultStmtErr.String())
+		r.stat("fault_aimed_at_sweep")
+		r.ev("arm %v at driver event %d of the dead-letter sweep", FaultStmtErr, k)
+	}
 	t0 := time.Now()
-	err := r.W.Client.DoCtxTx(context.Background(), nil, a.Execute)
+	err := r.W.Client.DoCtxTx(ctx, nil, a.Execute)
 	t1 := time.Now()
+	fired := false
+	if faulted {
+		if _, fired = r.Sim.Disarm(); fired {
+			r.stat("fault_fired_in_op")
+		}
+	}
 	res, _ := a.Results()
 	r.ev("dead-letter sweep limit=%d -> n=%d err=%v", limit, res.NumDeadLettered, err)
+	if err != nil && fired {
+		r.cev("sweep failed under fault")
+		return nil // rolled back: nothing changed
+	}
 	if err != nil {
 		return viol("C06", "sweep_error", "dead-letter sweep failed: %v", err)
 	}
@@ -1797,6 +1829,56 @@ func (r *Run) doChase() *Violation {
 		r.M.probe("chase_round")
 	}
 	return nil
+}
+
+// doSweepChase brings one delivery of a dead-lettering subscription to the state only the
+// background sweep handles - attempts used up, last lease run out, nobody pulling - and
+// then runs the sweep (which, in fault-injecting runs, gets a storage error aimed at the
+// statements that forward and retire it, see doDLSweep).
+func (r *Run) doSweepChase() *Violation {
+	t := r.T
+	var cands []*ED
+	now := time.Now()
+	for _, s := range r.M.AllSubs {
+		if !s.Live || !s.Cfg.strictDL() || s.Cfg.Ordered || nominalBackoff(&s.Cfg, int(s.Cfg.MaxAttempts)) > time.Hour {
+			continue
+		}
+		for _, e := range s.EDs {
+			if e.State == stOut && !e.Fuzzy && !e.DLMaybe && e.SeenUnc == 0 && e.mustAlive(now.Add(12*time.Hour)) {
+				cands = append(cands, e)
+			}
+		}
+	}
+	if len(cands) == 0 {
+		return nil
+	}
+	e := cands[t.Intn(len(cands))]
+	n := int(e.Sub.Cfg.MaxAttempts)
+	r.ev("sweep chase: m%d on %s up to %d attempts", e.Msg.Seq, e.Sub.Name, n)
+	for k := 0; k <= n+1; k++ {
+		if e.State != stOut || e.Fuzzy || e.DLMaybe || !e.Sub.Live || !e.Sub.Cfg.strictDL() {
+			return nil
+		}
+		now = time.Now()
+		if !e.mustAlive(now.Add(e.LeaseHi.Sub(now) + time.Hour)) {
+			return nil
+		}
+		if d := e.LeaseHi.Sub(now) + 11*time.Millisecond; d > 0 {
+			time.Sleep(d)
+			r.Sim.Settle()
+		}
+		if e.Seen >= n {
+			break
+		}
+		if v := r.pullSub(e.Sub, false); v != nil {
+			return v
+		}
+	}
+	if e.State != stOut || e.Seen < n {
+		return nil
+	}
+	r.M.probe("sweep_chase_ready")
+	return r.doDLSweep()
 }
 
 // doNack sends a backoff-rescheduling nack (the streamer's Nack input, which the HTTP pusher
